@@ -71,3 +71,15 @@ Print Assumptions C09_downlink.
 (** the unit-test frame: 416 kt / 321 deg *)
 Example C09_example : vel_spec false 1 262 0 325 = (Some 321, Some 416).
 Proof. vm_compute. reflexivity. Qed.
+
+(** ---- through the whole pipeline ---- *)
+From SQ Require Import Base Table Update Velocity VelSpec TableProofs TotalPipeline EndToEnd.
+Local Open Scope N_scope.
+
+(** an accepted TC19 squitter for an aircraft already in the table sets vertical rate (and for subtypes 1/2 ground speed and track) to the specified values, on both update paths -- first and later frames, with and without -U *)
+Theorem C09_end_to_end : forall (o : opts) (now : Z) (s : state) (line : list N) (s' : state) (rf : bool) (a : N) (r : row) (m : list N), step_line o now s line = Ok (s', rf, Applied 17 a) -> lookup (tbl s) a = Some r -> (0 < delete_after o)%Z -> get_message line = Ok (Some m) -> field m 33 37 = 19 -> exists r' : row, lookup (tbl s') a = Some r' /\ vrate r' = vrate_spec (bit_at m 69) (field m 70 78) /\ (field m 38 40 = 1 \/ field m 38 40 = 2 -> (track r', grspeed r') = vel_spec (field m 38 40 =? 2) (bit_at m 46) (field m 47 56) (bit_at m 57) (field m 58 67)).
+Proof. exact velocity_end_to_end. Qed.
+Check C09_end_to_end : forall (o : opts) (now : Z) (s : state) (line : list N) (s' : state) (rf : bool) (a : N) (r : row) (m : list N), step_line o now s line = Ok (s', rf, Applied 17 a) -> lookup (tbl s) a = Some r -> (0 < delete_after o)%Z -> get_message line = Ok (Some m) -> field m 33 37 = 19 -> exists r' : row, lookup (tbl s') a = Some r' /\ vrate r' = vrate_spec (bit_at m 69) (field m 70 78) /\ (field m 38 40 = 1 \/ field m 38 40 = 2 -> (track r', grspeed r') = vel_spec (field m 38 40 =? 2) (bit_at m 46) (field m 47 56) (bit_at m 57) (field m 58 67)).
+Print Assumptions C09_end_to_end.
+
+
